@@ -8,7 +8,9 @@
 pub open spec fn is_const_name(n: Seq<char>) -> bool {
     n == "true"@ || n == "True"@ || n == "1"@ || n == "false"@ || n == "False"@ || n == "0"@
 }
-pub open spec fn pname_ok(n: Seq<char>) -> bool { n.len() > 0 && name_str(n) && classify(n) == STok::Prop(n) && !is_const_name(n) && n != "3"@ && n != "V"@ }
+// (the first character is not white space: true of every alphanumeric character of the Unicode tables, but the tables are not
+// axiomatised beyond ASCII here, so it is stated)
+pub open spec fn pname_ok(n: Seq<char>) -> bool { n.len() > 0 && name_str(n) && !is_white_space(n[0]) && classify(n) == STok::Prop(n) && !is_const_name(n) && n != "3"@ && n != "V"@ }
 pub open spec fn vname_ok(n: Seq<char>) -> bool { n.len() > 0 && name_str(n) }
 pub open spec fn printable(t: STree, ext: bool) -> bool decreases t {
     match t {
